@@ -361,11 +361,11 @@ fn gen_script(r: &mut Rng, idx: usize) -> Script {
                     dax = true;
                     let d = Who::T(3);
                     let pool = vec_pool();
-                    calls.push(Call { who: d, op: Op::BulkQuery(vec![1, 2, 3, 4, 5, 6, 7, 8], true, String::new()), exact: true });
+                    calls.push(Call { who: d, op: Op::BulkQuery(vec![1, 2, 3, 4, 5, 6, 7, 8, 4294967295], true, String::new()), exact: true });
                     let sq = Sq { q: r.pick(&pool).clone(), k: 10, min_score: 0.0, ns: String::new(), incl: true, ef: 0, filter: None, legacy: vec![] };
                     let ex = tr.exact(10);
                     calls.push(Call { who: d, op: Op::Search(sq), exact: ex });
-                    calls.push(Call { who: d, op: Op::BulkQuery(vec![1, 2, 3, 4, 5, 6, 7, 8], true, String::new()), exact: true });
+                    calls.push(Call { who: d, op: Op::BulkQuery(vec![1, 2, 3, 4, 5, 6, 7, 8, 4294967295], true, String::new()), exact: true });
                     calls.push(Call { who: d, op: Op::Query(*r.pick(&[1u64, 2, 3]), true, String::new()), exact: true });
                     calls.push(Call { who: d, op: Op::Usage(None), exact: true });
                     match r.below(4) {
@@ -376,7 +376,7 @@ fn gen_script(r: &mut Rng, idx: usize) -> Script {
                     }
                     tr.tombstones += 8;
                     for t in 0..nt {
-                        calls.push(Call { who: Who::T(t), op: Op::BulkQuery(vec![1, 2, 3, 4, 5, 6, 7, 8], true, String::new()), exact: true });
+                        calls.push(Call { who: Who::T(t), op: Op::BulkQuery(vec![1, 2, 3, 4, 5, 6, 7, 8, 4294967295], true, String::new()), exact: true });
                     }
                 }
                 continue;
@@ -501,7 +501,7 @@ fn gen_script(r: &mut Rng, idx: usize) -> Script {
         calls.push(Call { who, op, exact });
         // census right after every search: what the caller can see in that namespace
         if let Some(ns) = census {
-            calls.push(Call { who, op: Op::BulkQuery(vec![1, 2, 3, 4, 5, 6, 7, 8], true, ns), exact: true });
+            calls.push(Call { who, op: Op::BulkQuery(vec![1, 2, 3, 4, 5, 6, 7, 8, 4294967295], true, ns), exact: true });
         }
     }
     // closing probes by every tenant: usage + census (+ one flush in some scripts)
@@ -513,7 +513,7 @@ fn gen_script(r: &mut Rng, idx: usize) -> Script {
         closers.push(3);
     }
     for t in closers {
-        calls.push(Call { who: Who::T(t), op: Op::BulkQuery(vec![1, 2, 3, 4, 5, 6, 7, 8], true, String::new()), exact: true });
+        calls.push(Call { who: Who::T(t), op: Op::BulkQuery(vec![1, 2, 3, 4, 5, 6, 7, 8, 4294967295], true, String::new()), exact: true });
         calls.push(Call { who: Who::T(t), op: Op::Usage(None), exact: true });
     }
     let hint = if dax {
